@@ -198,3 +198,70 @@ func ByvalClosure(x, k int) int {
 	f := func(b big) int { v.scale(k); return b.a + v.a }
 	return pick(f, v)*10 + sumBig(v)
 }
+
+// ---- aggregates larger than a few registers: assignment copies the old value ----
+
+type vec [20]int
+
+type blob struct {
+	a, b vec
+	tag  int
+}
+
+func (v *vec) fill(k int) {
+	v[0], v[7], v[19] = k, k*3, k*5
+}
+
+func SwapBig(k int) int {
+	a := vec{0: k, 3: k + 1, 19: 5}
+	b := vec{0: 2 * k, 3: 7, 19: k - 9}
+	a, b = b, a
+	return a[0]*31 + a[3]*7 + a[19] - (b[0]*5 + b[3]*3 + b[19])
+}
+
+func SwapBigTmp(k int) int {
+	a := vec{1: k, 4: k + 1}
+	b := vec{1: k * 4, 4: 9}
+	tmp := a
+	a = b
+	b = tmp
+	return a[1]*100 + a[4]*10 + b[1]*3 + b[4]
+}
+
+func RotateBig(k int) int {
+	var r [3]vec
+	r[0][2], r[1][2], r[2][2] = k, k+10, k+20
+	r[0], r[1], r[2] = r[1], r[2], r[0]
+	return r[0][2]*10000 + r[1][2]*100 + r[2][2]
+}
+
+func SwapBigPtr(k int, same bool) int {
+	x := vec{5: k}
+	y := vec{5: k ^ 21}
+	p, q := &x, &y
+	if same {
+		q = p
+	}
+	*p, *q = *q, *p
+	return x[5]*1000 + y[5]
+}
+
+func SavedCopyBig(k int) int {
+	var cur, prev vec
+	cur.fill(k)
+	old := cur
+	cur.fill(k + 100)
+	prev = old
+	return prev[0]*7 + prev[7] - cur[19] + old[19]
+}
+
+func BlobCopy(k int) int {
+	var x blob
+	x.a.fill(k)
+	x.tag = k
+	y := x
+	x.a.fill(k + 1)
+	x.b = x.a
+	x.a = y.b
+	return y.a[7] + x.b[7]*3 + x.a[0] + y.tag
+}
